@@ -1357,8 +1357,9 @@ func (sc *serverConn) handleHeaderFrame(strm *Stream, fr *FrameHeader) error {
 			// is only legal when more frames are coming: a HEADERS frame without
 			// END_HEADERS to be completed by a CONTINUATION. If END_HEADERS is
 			// set, the block is complete and a truncated field is a decoding
-			// error.
-			if errors.Is(err, ErrUnexpectedSize) && !fr.Flags().Has(FlagEndHeaders) {
+			// error. With no part of a field left, the frame ended in a dynamic
+			// table size update and nothing is wrong.
+			if errors.Is(err, ErrUnexpectedSize) && (len(b) == 0 || !fr.Flags().Has(FlagEndHeaders)) {
 				err = nil
 				strm.previousHeaderBytes = append(strm.previousHeaderBytes, b...)
 			} else {
